@@ -9,9 +9,18 @@ SPEC = Spec(
         Harness(name="receiver", module="receiver/receiverhelper", pkg="receiver/receiverhelper",
                 files={"zz_verif_c19_receiver_test.go": "c19/receiver_test.go"},
                 test="TestVerifC19Receiver", driver="drv_c19", n={"quick": 6000, "thorough": 60000}),
+        # the concurrent mode only (goroutines on shared ObsReports), under the race detector: a data race fails the test process
+        Harness(name="receiver-race", module="receiver/receiverhelper", pkg="receiver/receiverhelper",
+                files={"zz_verif_c19_receiver_test.go": "c19/receiver_test.go"},
+                test="TestVerifC19Receiver", driver="drv_c19", race=True, env={"VERIF_C19_CONC_ONLY": "1"},
+                n={"quick": 300, "thorough": 3000}),
         Harness(name="processor", module="processor/processorhelper", pkg="processor/processorhelper",
                 files={"zz_verif_c19_processor_test.go": "c19/processor_test.go"},
                 test="TestVerifC19Processor", driver="drv_c19", n={"quick": 5000, "thorough": 50000}),
+        # profiles: xprocessorhelper.NewProfiles records nothing — differential against the no-op model, next to a counted NewLogs
+        Harness(name="profiles", module="processor/processorhelper/xprocessorhelper", pkg="processor/processorhelper/xprocessorhelper",
+                files={"zz_verif_c19_profiles_test.go": "c19/profiles_test.go"},
+                test="TestVerifC19Profiles", driver="drv_c19", n={"quick": 1000, "thorough": 10000}),
         Harness(name="scraper", module="scraper/scraperhelper", pkg="scraper/scraperhelper",
                 files={"zz_verif_c19_scraper_test.go": "c19/scraper_test.go"},
                 test="TestVerifC19Scraper", driver="drv_c19", n={"quick": 5000, "thorough": 50000}, timeout_s=1500),
@@ -23,18 +32,33 @@ SPEC = Spec(
          "meter provider) driven by 0-25 random Start/End{Traces,Metrics,Logs}Op (n = 0, 1-40 or 1e3-1e6 items; 1/3 with a plain or "
          "wrapped error); after EACH operation all six accepted/refused counters of ALL receivers and the ended span's "
          "name/attributes are read and compared with the model; non-trivial = a successful and a failed non-empty operation and >= 2 "
-         "signals. processor: real processorhelper.NewLogs/NewMetrics/NewTraces sharing one telemetry (random WithCapabilities), 0-20 "
+         "signals; every 5th case is CONCURRENT: 1-2 rounds of 2-6 goroutines, 1-15 operations each on the shared receivers, released "
+         "together, all counters (and the number of ended spans) read once per round and compared with the order-independent model "
+         "total (C19_receiver_perm); receiver-race = the concurrent mode alone under `go test -race`. "
+         "processor: real processorhelper.NewLogs/NewMetrics/NewTraces sharing one telemetry (random WithCapabilities), 0-20 "
          "random payloads (0-30 items; metrics = data points over mixed metric types) whose process function drops/adds items, returns "
          "a fresh payload, fails, or returns (wrapped) ErrSkipProcessingData, next consumer fails at random; incoming/outgoing of all "
          "three otel.signal values, the sink's ledger and the returned error are read after each call; non-trivial = an ok outcome with "
-         "out != in, and an err or skip outcome. scraper: real scraperhelper.NewMetricsController / NewLogsController (even/odd case) "
+         "out != in, and an err or skip outcome; in ~1/3 of the calls (scraper: scrapes) the next consumer declares MutatesData and "
+         "EMPTIES the payload (MoveAndAppendTo) before returning nil/error, its ledger counted at call entry (corpus: processor cases "
+         "0-5, scraper cases 2-5). profiles: xprocessorhelper.NewProfiles next to processorhelper.NewLogs on the same settings, 1-16 "
+         "payloads (2/3 profiles) with every outcome; the three otel.signal series, the sum over ALL series of the two instruments and "
+         "the number of series are compared with the no-op model; non-trivial = profiles and logs payloads interleaved. scraper: real scraperhelper.NewMetricsController / NewLogsController (even/odd case) "
          "with 1-3 scrapers (ok / PartialScrapeError, possibly wrapped / plain error, possibly with data that must be dropped), next "
          "consumer failing at random, 1-6 scrapes driven through WithTickerChannel (first at Start); all six receiver counters, the "
          "per-scraper scraped/errored counters of both kinds and the sink ledger are read after each scrape; non-trivial = a scrape "
          "mixing kept and dropped scrapers with a non-empty payload and a refused scrape. Case 0/1 of the scraper harness = the Lean "
          "witness (one scraper, one item). thorough adds EXHAUSTIVE small scopes: receiver = every history of length <= 3 over "
-         "3 signals x {0,1,2} items x {ok,error}; processor = every history of length <= 2 over 3 signals x {0,2} in x 6 outcomes; "
-         "scraper = both controllers x (one scrape of two scrapers, two scrapes of one scraper) over 5 scraper results x next ok/fails. "
+         "3 signals x {0,1,2} items x {ok,error}; processor = every history of length <= 2 over 3 signals x {0,2} in x 6 outcomes x "
+         "{next consumer keeps/empties the payload}; scraper = both controllers x (one scrape of two scrapers, two scrapes of one "
+         "scraper) over 5 scraper results x next ok/fails x keeps/empties. "
+         "exporter: the C03 scenario generator/runner (harness/c03/shutdown_test.go: real logs/traces/metrics exporter, memory/persistent "
+         "queue, both batchers, retry, wait_for_result, refusals, storage faults, in one synctest bubble) with component-test telemetry: the "
+         "three item counters of the case's signal are read after each case and diffed with the model's prediction from the trace; the "
+         "balance oracle runs in Lean on the implementation's counters; every returned replayable trace is replayed through C03.fire and "
+         "sentOf/failedOf/enqFailedWfrOf of the reached LTS state must equal the meter values; the size/capacity gauges are read at a "
+         "quiescent point before Shutdown and compared with a send ledger and with the qsize of the LTS state replayed up to there; "
+         "non-trivial = a failed call and a refused send. "
          "distinct = distinct op sequences (sha1 of the op lines).",
     trusted_base=[
         "Lean 4.33.0 kernel; axioms per theorem listed under axioms_per_theorem (subset of propext, Classical.choice, Quot.sound)",
@@ -49,6 +73,7 @@ SPEC = Spec(
     assumptions=[
         "item counts passed to End*Op are non-negative",
         "one scrape at a time per controller (the controller's single goroutine), operations of one ObsReport/processor are modelled "
-        "as atomic counter additions (OTel counters are atomic; concurrent histories are some sequence of them)",
+        "as atomic counter additions (OTel counters are atomic; concurrent histories are some sequence of them: C19_receiver_concurrent; "
+        "exercised by the concurrent receiver mode, also under the race detector)",
     ],
 )
